@@ -259,6 +259,15 @@ func cmdProp(args []string) {
 			fmt.Printf("  %-8v %-6v %5vms %v\n", r["result"], r["solver"], r["ms"], r["name"])
 		}
 	}
+	var slow []string
+	for _, r := range obRecords {
+		if ms, ok := r["ms"].(int64); ok && ms > 3000 && r["kind"] == nil {
+			slow = append(slow, fmt.Sprintf("%v(%dms)", r["name"], ms))
+		}
+	}
+	if len(slow) > 0 {
+		fmt.Fprintf(os.Stderr, "SLOW obligations (stability risk): %s\n", strings.Join(slow, "; "))
+	}
 	fmt.Printf("%s: %d/%d obligations discharged, %d known findings, %d violations, %.1fs\n", cfg.ID, discharged, total, len(known), violations, time.Since(t0).Seconds())
 	if violations > 0 {
 		os.Exit(1)
